@@ -26,6 +26,8 @@ MOLS = {
     "NH3": (["N", "H", "H", "H"], [[0.0, 0.0, 0.116], [0.0, 0.939, -0.272], [0.813, -0.470, -0.272], [-0.813, -0.470, -0.272]]),
     "CH4": (["C", "H", "H", "H", "H"], [[0.0, 0.0, 0.0], [0.629, 0.629, 0.629], [-0.629, -0.629, 0.629], [-0.629, 0.629, -0.629], [0.629, -0.629, -0.629]]),
     "HCN": (["H", "C", "N"], [[0.0, 0.0, -1.6], [0.0, 0.0, -0.53], [0.0, 0.0, 0.62]]),
+    # a rod (triacetylene, 8.5 A long): only used with the pose set that lays it along cell-independent special directions
+    "C6H2": (["H", "C", "C", "C", "C", "C", "C", "H"], [[0.0, 0.0, z] for z in (-4.245, -3.185, -1.975, -0.605, 0.605, 1.975, 3.185, 4.245)]),
     "H2CO": (["C", "O", "H", "H"], [[0.0, 0.0, -0.53], [0.0, 0.0, 0.68], [0.0, 0.94, -1.12], [0.0, -0.94, -1.12]]),
 }
 LMAX = (4, 6, 8, 12)
@@ -111,7 +113,7 @@ def descriptor(kind, L, zs, pos, ext=None, channel=None, isovalue=None):
         ez, ep = ext
         c = np.mean(pos, axis=0, dtype=np.float32)
         dists = np.linalg.norm(pos - c, axis=1)
-        return stockholder_weight_descriptor(sht, zs, pos, ez, ep, origin=c, bounds=(max(0.05, np.min(dists) / 2), np.max(dists) + 10.0), **kw)
+        return stockholder_weight_descriptor(sht, zs, pos, ez, ep, origin=c, bounds=(max(0.05, np.min(dists) / 2), np.max(dists) + 6.0), **kw)
     if kind == "stockholder-default":
         # origin left at its default (centroid of the interior atoms); the upper search bound is kept inside the model
         # cluster (at the default 20 A every tabulated density is zero and the compiled single-point weight is 0/0)
@@ -236,7 +238,7 @@ def radial_worker(part, job):
             part.fail("radial-promolecule", "radial function of %s does not solve rho = %g (rel. dev %.3g)" % (name, iso, dev), case)
     ez, ep = exterior_for(name, zs, p0)
     s = StockholderWeight.from_arrays(zs, p0, ez, ep)
-    r = sphere_stockholder_radii(s.s, o, g, 0.05, 12.0, 1e-7, 30, 0.5)
+    r = sphere_stockholder_radii(s.s, o, g, 0.05, 9.0, 1e-7, 30, 0.5)
     part.ev()
     part.tr()
     case = {"kind": "radial", "mol": name, "L": L}
@@ -256,14 +258,14 @@ def radial_worker(part, job):
     # bounds that exclude the surface only in SOME directions (between the smallest and the largest radius)
     pro = PromoleculeDensity((zs, p0))
     rp = sphere_promolecule_radii(pro.dens, o, g, 0.4, 20.0, 1e-12, 30, 2e-4)
-    rs = sphere_stockholder_radii(s.s, o, g, 0.05, 12.0, 1e-7, 30, 0.5)
+    rs = sphere_stockholder_radii(s.s, o, g, 0.05, 9.0, 1e-7, 30, 0.5)
     partial = []
     if rp.min() > 0 and rp.max() - rp.min() > 0.05:
         mid = 0.5 * (rp.min() + rp.max())
         partial += [("promolecule", "upper-partly-inside", (0.4, mid)), ("promolecule", "lower-partly-outside", (mid, 20.0))]
     if rs.min() > 0 and rs.max() - rs.min() > 0.05:
         mid = 0.5 * (rs.min() + rs.max())
-        partial += [("stockholder", "upper-partly-inside", (0.05, mid)), ("stockholder", "lower-partly-outside", (mid, 12.0))]
+        partial += [("stockholder", "upper-partly-inside", (0.05, mid)), ("stockholder", "lower-partly-outside", (mid, 9.0))]
     for kind, bname, bounds in partial:
         part.ev()
         try:
@@ -279,7 +281,7 @@ def radial_worker(part, job):
             part.fail("missing-surface-other-error:%s" % kind, "%s descriptor with bounds %s raised %s instead of ValueError" % (kind, bounds, type(e).__name__),
                       {"kind": "radial", "mol": name, "L": L})
     for channel in (None, "d_norm", "esp"):
-        for bname, bounds in (("upper-inside", (0.01, 0.3)), ("lower-outside", (15.0, 20.0))):
+        for bname, bounds in (("upper-inside", (0.01, 0.3)), ("lower-outside", (7.0, 9.0))):
             part.ev()
             kw = {"with_property": channel} if channel else {}
             for kind in ("promolecule", "stockholder"):
@@ -345,12 +347,30 @@ def worker(part, job):
         crystal_worker(part, job[1])
 
 
+def rod_rotations():
+    """the rod laid along axes, face diagonals and body diagonals (default search bounds must reach its tips in every pose)"""
+    def to_dir(v):
+        v = np.array(v, dtype=float) / np.linalg.norm(v)
+        z = np.array([0.0, 0.0, 1.0])
+        ax = np.cross(z, v)
+        if np.linalg.norm(ax) < 1e-12:
+            return np.eye(3)
+        return rot(tuple(ax), math.acos(max(-1.0, min(1.0, float(z @ v)))))
+    return [(("z->%s" % (v,),), to_dir(v)) for v in ((1, 0, 0), (0, 1, 0), (1, 1, 0), (1, 0, -1), (1, 1, 1), (1, -1, 1), (-1, 1, 1), (1, 1, -1), (2, 1, 3))]
+
+
 def run(ctx):
     words, trans = rotation_words(2)
     ctx.tr(trans)
     rots = words + [(("seed",), rot((1 + ctx.seed, 2, 3), 0.37 + 0.23 * ctx.seed))]
     jobs = []
+    rod_rots = rod_rotations()
+    for L in (4, 8, 12):
+        for kind, ch, iso in (("promolecule", None, 2e-4), ("molecule-api", None, None), ("promolecule", "d_norm", 2e-4), ("promolecule-origin", None, 2e-4)):
+            jobs.append(("mol", ("C6H2", L, kind, ch, iso, rod_rots, ctx.seed)))
     for name in MOLS:
+        if name == "C6H2":
+            continue
         for L in LMAX:
             # default: promolecule shape at isovalue 2e-4; deviations one axis at a time (thorough: full product)
             combos = [("promolecule", None, 2e-4), ("promolecule", None, 2e-3), ("promolecule", "d_norm", 2e-4), ("promolecule", "esp", 2e-4),
@@ -391,6 +411,8 @@ def replay(ctx, case):
     words, _ = rotation_words(2)
     rots = words + [(("seed",), rot((1 + case.get("seed", 0), 2, 3), 0.37 + 0.23 * case.get("seed", 0)))]
     if k == "mol":
+        if case["mol"] == "C6H2":
+            rots = rod_rotations()
         mol_worker(ctx, (case["mol"], case["L"], case["surface"], case["channel"], case["isovalue"], rots, case.get("seed", 0)))
     elif k == "radial":
         radial_worker(ctx, (case["mol"], case["L"]))
